@@ -99,7 +99,7 @@ class PipeShape(Shape):
                     os.path.join(case.workdir, case.main), os.path.join(case.workdir, 'isa.yaml'), case.binary, outp,
                     int(val(case.start)), None if case.end is None else int(val(case.end)), val(case.fill),
                     case.pretty is not None, case.pretty or 'listing', 'stdout', 0,
-                    [os.path.join(case.workdir, d) for d in case.include_dirs], list(case.predefined))
+                    [os.path.join(case.workdir, d) for d in case.include_dirs], case.concrete_predefined(model))
                 asm.assemble_bytecode()
         except SystemExit as e:
             kind, msg = 'exit', str(e.code)
